@@ -42,7 +42,7 @@ type c06ClientRec struct {
 func TestC06(t *testing.T) {
 	rec := ev.Get("C06")
 	rec.Rule("state machine over a Conn with an accepted first hello. Operations: client sends (well-formed retried hello sealed at the next sequence number - its extensions, including those referenced through ech_outer_extensions, may differ from the first flight's -, 11 ill-formed variants, plain hello, CCS, other handshake, application data, alert), backend queues (HRR, ServerHello, CCS, application data, other handshake) and flushes its pending bytes in drawn pieces, backend reads one record. Reference machine from the property: a ClientHello consumed while exactly one HRR has been completely written, no retry was processed and no client application data was seen is a retry (expected reconstructed inner, or the class of its defect, alert+close); every other record is forwarded unchanged. distinct = operation-kind sequence; non-trivial = history contains an HRR and a later ClientHello")
-	rec.Mandatory("hrr_after_backend_appdata", "double_hrr", "ccs_between_hrr_and_hello", "hello_without_hrr", "hello_after_appdata", "hrr_split_across_writes", "retry_ok", "retry_ok_referenced_ext_changed", "sibling_key_same_id", "third_hello_forwarded",
+	rec.Mandatory("hrr_after_backend_appdata", "double_hrr", "ccs_between_hrr_and_hello", "hello_without_hrr", "hello_after_appdata", "hrr_split_across_writes", "retry_ok", "retry_ok_referenced_ext_changed", "sibling_key_same_id", "other_id_keys_around", "third_hello_forwarded",
 		"retry:ch_no_ech", "retry:ch_other_id", "retry:ch_other_suite", "retry:ch_enc_nonempty", "retry:ch_fresh_ctx", "retry:ch_seq_skip", "retry:ch_sni_changed", "retry:ch_alpn_changed", "retry:ch_no_inner_ext", "retry:ch_outer_sni_changed")
 	rapid.Check(t, func(t *rapid.T) {
 		sc := drawSealed(t, false)
@@ -63,6 +63,19 @@ func TestC06(t *testing.T) {
 				serverKeys = []*hello.Key{key, sib}
 			}
 			cl = append(cl, "sibling_key_same_id")
+		}
+		if rapid.IntRange(0, 2).Draw(t, "rotated_keys") == 0 {
+			// key rotation: newer keys under other config ids sit in front of (and behind) the one
+			// this client still uses; the retry belongs to the key that opened the first hello
+			for i, n := 0, rapid.IntRange(1, 2).Draw(t, "rotated_n"); i < n; i++ {
+				nk := drawKey(t, fmt.Sprintf("rotated%d", i), (int(key.ID)+1+i)%256, key.PublicName)
+				if rapid.IntRange(0, 2).Draw(t, "rotated_behind") == 0 {
+					serverKeys = append(serverKeys, nk)
+				} else {
+					serverKeys = append([]*hello.Key{nk}, serverKeys...)
+				}
+			}
+			cl = append(cl, "other_id_keys_around")
 		}
 		c, err := newConn(context.Background(), tr, echKeys(serverKeys...))
 		if err != nil || !c.ECHAccepted() {
@@ -298,6 +311,19 @@ func TestC06(t *testing.T) {
 					}
 					alertWant = []byte{0x15, 3, 3, 0, 2, 2, byte(alertClass[wantClass].desc)}
 					aborted = true
+					// a relay that polls or drains the connection calls Read again: still nothing of
+					// the refused hello (nor anything else) comes out
+					for k := 0; k < 3; k++ {
+						buf := make([]byte, 1+uniform(t, "reread_buf", 20000))
+						var n int
+						e2 := guard(func() error { var e error; n, e = c.Read(buf); return e })
+						if isPanic(e2) {
+							ev.Violation(t, "C06", rp, "Read after the abort panicked: %v", e2)
+						}
+						if n > 0 || e2 == nil {
+							ev.Violation(t, "C06", rp, "Read call %d after the aborting one returned (%d, %v): %d bytes reached the backend after an ill-formed retried hello (%s)", k+1, n, e2, n, cr.kind)
+						}
+					}
 					cl = append(cl, "retry:"+cr.kind)
 				}
 			default:
